@@ -65,7 +65,7 @@ def intBits (x : Int) : Nat := (x % 18446744073709551616).toNat
 def userP1 (id : String) (c : Cell) : Option Bool :=
   match id, c with
   | "odd", .int x => some (x % 2 == 1 || x % 2 == -1)
-  | "neg", .float b => some (F64.sign b)
+  | "neg", .float b => some (!F64.isNaN b && F64.sign b)
   | "id", .bool b => some b
   | "isnil", .str s => some s.isNone
   | "len2", .str s => some (match s with | some x => x.length ≥ 2 | none => false)
